@@ -12,6 +12,7 @@
 #include <stdlib.h>
 #include <string.h>
 
+extern json_object *c09_twin_h(json_object *o);
 static int naninf;
 static json_object *gen_double(void)
 {
@@ -163,6 +164,15 @@ static int drive(int start, int nexec, int per_event)
 		ev_end();
 		naninf = 0;
 		json_object *t = (x % 10 == 9) ? nested(10 + (int)vh_below(30)) : gen(1 + (int)vh_below(3));
+		if (x % 3 == 1)
+		{
+			/* the same kind of tree, but every node reached through a history (strings grown / shrunk by set, objects with
+			 * deleted members and grown tables, arrays trimmed / built by insert, numbers set or incremented): what is
+			 * serialized is the value, whatever the node went through */
+			json_object *th = c09_twin_h(t);
+			json_object_put(t);
+			t = th;
+		}
 		int nan = has_nan(t);
 		ev_begin("ser");
 		dump_value("tree", t);
